@@ -248,19 +248,22 @@ impl SPDC {
         )?
       }
     };
-    let mut idler =
-      IdlerBeam::try_new_optimum(&self.signal, &self.pump, &self.crystal_setup, &self.pp)?;
+    // the optimum idler belongs to the optimum poling, not the poling that was passed in
+    let mut idler = IdlerBeam::try_new_optimum(&self.signal, &self.pump, &self.crystal_setup, &pp)?;
     // keep the same idler waist size
     idler.set_waist(self.idler.waist());
+    // waist positions of the beams of the optimised setup (the new idler, not the old one)
+    let signal_waist_position = self
+      .crystal_setup
+      .optimal_waist_position(self.signal.vacuum_wavelength(), self.signal.polarization());
+    let idler_waist_position = self
+      .crystal_setup
+      .optimal_waist_position(idler.vacuum_wavelength(), idler.polarization());
     Ok(Self {
       idler,
       pp,
-      signal_waist_position: self
-        .crystal_setup
-        .optimal_waist_position(self.signal.vacuum_wavelength(), self.signal.polarization()),
-      idler_waist_position: self
-        .crystal_setup
-        .optimal_waist_position(self.idler.vacuum_wavelength(), self.idler.polarization()),
+      signal_waist_position,
+      idler_waist_position,
       ..self
     })
   }
